@@ -113,6 +113,7 @@ func init() {
 		c01ResolveBeforeMerge(c)
 		c01CommitBeforeCommitment(c)
 		c01TracerFullPath(c)
+		c01FreshLeafValue(c)
 	})
 }
 
@@ -677,5 +678,37 @@ func c01TracerFullPath(c *Ctx) {
 	}
 	if n < 6 {
 		c.und("tracer-full-path", "trie2 walkers", "", fmt.Sprintf("only %d tracer calls found", n))
+	}
+}
+
+// c01FreshLeafValue: trie2.(*Trie).Update keeps the value pointer it is given as the leaf. A caller that updates several
+// keys in a loop must therefore hand over a value that lives per iteration; a single variable hoisted out of the loop makes
+// all leaves inserted by the loop share the last value written (the legacy trie copies on Put, so only the new backend breaks).
+func c01FreshLeafValue(c *Ctx) {
+	p := c.P
+	n := 0
+	for _, fn := range p.sortedFuncs() {
+		pr := pkgRelOf(fn)
+		if !(pr == "core/state" || pr == "core" || pr == "blockchain/statebackend" || strings.HasPrefix(pr, "core/trie2")) || fn.Origin() != nil || strings.HasSuffix(p.Pos(fnPos(fn)), "_test.go") {
+			continue
+		}
+		for _, s := range sitesOf(fn) {
+			if s.Callee == nil || s.Callee.Name() != "Update" || s.Callee.Signature.Recv() == nil || recvName(s.Callee.Signature.Recv().Type()) != "Trie" || pkgRelOf(s.Callee) != "core/trie2" {
+				continue
+			}
+			if !inSameLoop(s.Block(), s.Block()) {
+				continue
+			}
+			n++
+			val := s.Args()[len(s.Args())-1]
+			ok := true
+			if al, isAl := baseOfAddr(val).(*ssa.Alloc); isAl {
+				ok = inSameLoop(al.Block(), s.Block())
+			}
+			c.check(ok, "fresh-leaf-value", qname(fn)+" → trie2.Update in loop", p.Pos(s.Pos()), "the value handed to the trie lives per iteration", "the loop hands trie2.Update the address of a variable declared outside the loop; the trie keeps that pointer as the leaf, so all leaves inserted by the loop end up with the last value written and the root is wrong")
+		}
+	}
+	if n < 2 {
+		c.und("fresh-leaf-value", "trie2.Update callers", "", fmt.Sprintf("only %d looped Update calls found", n))
 	}
 }
